@@ -328,6 +328,15 @@ def gen_c10(r, tier):
         else:
             op = gen_assert(r, clients, counter)
             op['recheck'] = True
+            prev = [o for o in ops if o['op'] == op['op']
+                    and len(o.get('refs', [1])) == len(op.get('refs', [1]))]
+            if prev and r.chance(0.4):
+                # the same reference is used again later in the history
+                # (checked, then regenerated with other content, ...)
+                src = r.pick(prev)
+                for k in ('client', 'kind', 'ref', 'refs'):
+                    if k in src:
+                        op[k] = src[k]
             if r.chance(0.25):
                 # I/O error at a write site (only armed by the executor for
                 # normal-mode assertions)
